@@ -1,4 +1,4 @@
-import MoneroModel.Proofs.AmountText7
+import MoneroModel.Proofs.AmountText8
 open Monero Monero.AmtText
 /-! # C15 — amount text parsing and formatting are exact decimal conversions
 
@@ -182,27 +182,20 @@ theorem C15_denomination_names :
     (∀ d, displayOf d = Spec.Decimal.utf8 (Spec.Decimal.name d)) ∧
     (∀ d, denomFromStr (displayOf d) = .ok d) ∧
     (∀ (b : Bytes) (d : Denom), denomFromStr b = .ok d ↔ Spec.Decimal.denomOfName b = some d) := by
-  refine ⟨fun d => by cases d <;> decide, fun d => (display_roundtrip d).1, ?_⟩
-  intro b d
-  have hfwd : ∀ p ∈ Gen.denomFromStr, Spec.Decimal.denomOfName p.1 = some p.2 := by decide
-  have hbwd : ∀ d, ∀ n ∈ Spec.Decimal.spellings d, Gen.denomFromStr.lookup (Spec.Decimal.utf8 n) = some d := by
-    intro d; cases d <;> decide
-  unfold denomFromStr
-  constructor
-  · intro h
-    cases hl : Gen.denomFromStr.lookup b with
-    | none => rw [hl] at h; cases h
-    | some d' =>
-      rw [hl] at h
-      simp only [Except.ok.injEq] at h
-      subst h
-      exact hfwd (b, d') (lookup_some_mem _ _ _ hl)
-  · intro h
-    unfold Spec.Decimal.denomOfName at h
-    have hm := List.find?_some h
-    simp only [List.any_eq_true, beq_iff_eq] at hm
-    obtain ⟨n, hn, he⟩ := hm
-    rw [← he, hbwd d n hn]
+  exact ⟨fun d => by cases d <;> decide, fun d => (display_roundtrip d).1, denomFromStr_iff⟩
+
+/-- **suffix form = spec, for every string.** `from_str_with_denomination` (= `FromStr` of both amount types) accepts exactly
+`<literal> <spelling>` — exactly two pieces separated by one space — and returns what the specification assigns to the
+literal in that denomination -/
+theorem C15_parse_denom_iff (signed : Bool) (s : Bytes) (r : Int) :
+    fromStrWithDenomination signed s = .ok r ↔ Spec.Decimal.specParseWithDenomination signed s = some r :=
+  fromStrWithDenomination_iff signed s r
+
+/-- formatting with the suffix is the specified string -/
+theorem C15_fmt_suffix_exact (signed : Bool) (d : Denom) (a : Int) (hu : signed = false → 0 ≤ a) :
+    toStringWithDenomination signed a d = Spec.Decimal.specFormatWithDenomination d a := by
+  unfold toStringWithDenomination Spec.Decimal.specFormatWithDenomination
+  rw [(C15_fmt_exact signed d a hu).1, C15_denomination_names.1 d]
 
 /-! The hypotheses are satisfiable / the statements are not vacuous. -/
 example : fromStrIn false [0x31, 0x2e, 0x35] .Monero = .ok 1500000000000 := (C15_parse_iff _ _ _ _).mpr (by decide)
